@@ -67,3 +67,7 @@ def truthy(x):
 
 def allocated(o):
     return True
+
+
+def exists_w(dom, f, hint=None):
+    return exists(dom, f)
